@@ -293,7 +293,7 @@ func TestC12Close(t *testing.T) {
 		spec := genSpec(t, specOpts{maxDepth: 3, bases: []string{"mem", "mem", "mem", "udp"}, honestFrag: true, errClose: true})
 		w, err := stack.Build(spec, 2, 0)
 		if err != nil {
-			t.Fatalf("harness: %v: %v", spec, err)
+			t.Fatalf("%s", ev.Tag(fmt.Sprintf("harness: %v: %v", spec, err)))
 		}
 		timing := rapid.SampledFrom([]string{"immediately", "after-deliveries", "later", "concurrent", "twice"}).Draw(t, "timing")
 		c12Case(t, sub, w, spec.String(), timing, rapid.IntRange(0, 4).Draw(t, "receivers"), rapid.IntRange(0, 4).Draw(t, "servers"), rapid.Bool().Draw(t, "traffic"), time.Duration(rapid.SampledFrom([]int{0, 0, 1, 5}).Draw(t, "callbackMs"))*time.Millisecond)
@@ -306,7 +306,7 @@ func TestC12CloseSSH(t *testing.T) {
 	rapid.Check(t, func(t *rapid.T) {
 		w, err := buildSSH(2)
 		if err != nil {
-			t.Fatalf("harness: %v", err)
+			t.Fatalf("%s", ev.Tag(fmt.Sprintf("harness: %v", err)))
 		}
 		timing := rapid.SampledFrom([]string{"immediately", "after-deliveries", "later", "concurrent", "twice"}).Draw(t, "timing")
 		c12Case(t, sub, w, "ssh", timing, rapid.IntRange(0, 4).Draw(t, "receivers"), rapid.IntRange(0, 4).Draw(t, "servers"), rapid.Bool().Draw(t, "traffic"), time.Duration(rapid.SampledFrom([]int{0, 1}).Draw(t, "callbackMs"))*time.Millisecond)
